@@ -67,6 +67,7 @@ type C6Case struct {
 	Term   C6Stage   `json:"term"`
 	Procs  int       `json:"procs"` // GOMAXPROCS of the parallel run
 	Seed   int64     `json:"seed"`  // seed of the model's schedule
+	Lazy   bool      `json:"lazy,omitempty"` // the lazy family (c06lazy.go): map/accept/number stages in front of a short-circuit consumer
 }
 
 var c6StageKinds = []string{"map", "accept", "combine", "combine3", "combineN", "iir", "iirCombine", "number", "compact", "cross", "merge", "top", "skip", "fsm", "concat"}
@@ -212,6 +213,8 @@ func (s C6Stage) render(prev string) string {
 		return prev + fmt.Sprintf(".visit(%d,(s,v)->%s)", s.K, h(lin2s(s.A, s.B, "s", "v")))
 	case "sum", "size", "string", "first", "last":
 		return prev + "." + s.Kind + "()"
+	case "lzFirst", "lzTop", "lzPresent", "lzIndexWhere", "lzSingle":
+		return s.renderLazyCons(prev)
 	case "minMax":
 		return prev + ".minMax(x->" + h(lin1s(s, s.A, s.B, "x")) + ")"
 	case "order", "orderRev":
@@ -267,7 +270,7 @@ func (c *C6Case) Text() string {
 
 func c6Calls(kind string, s C6Stage) bool { // does the stage call a closure on the stack it was handed?
 	switch kind {
-	case "map", "accept", "top", "skip", "sum", "size", "string", "first", "last", "multiUse", "concatSelf", "nest", "index":
+	case "map", "accept", "top", "skip", "sum", "size", "string", "first", "last", "multiUse", "concatSelf", "nest", "index", "lzFirst", "lzTop", "lzSingle":
 		return false
 	case "concat":
 		return s.ONum
@@ -1526,6 +1529,7 @@ func cmdC06(seed int64, tier, outDir string) {
 	sum := NewSummary("C06", seed, tier)
 	sum.Rule = "pipelines numbers(n) + up to 6 lazy stages + terminal, closures from a linear family through the host function h (per-stage cost profile none/front/all/late, optional failing value), evaluated by a `go build -race` worker under GOMAXPROCS 1/2/4/16 and under taskset (NumCPU==1, sequential library path); non-trivial = the switch to parallel execution was observed (>= 2 goroutine ids ran a map/accept closure) or the pipeline merges, and at least one other stage or the terminal calls a closure; distinct by expression text"
 	cw := NewCaseWriter(outDir, "From P2 Require Import Base.Prelude Conc.ParMap Conc.Pipeline Run.C06Run.", "c06_case", "c06_id", "c06_im", "c06_is", 40)
+	lw := NewCaseWriter(filepath.Join(outDir, "lazy"), "From P2 Require Import Base.Prelude Conc.ParMap Conc.Pipeline Conc.LazyPipe Run.C06Run.", "c06l_case", "c06l_id", "c06l_im", "c06l_is", 12)
 	r := NewRng(seed)
 	tStart := time.Now()
 	bin := c6BuildRace()
@@ -1565,6 +1569,28 @@ func cmdC06(seed int64, tier, outDir string) {
 			c := r.c6Gen(id, i >= n)
 			c.Procs = procsSet[i%4]
 			if tier == "thorough" && r.Chance(0.2) {
+				repeatAll[id] = true
+			}
+			cases = append(cases, c)
+		}
+		// the lazy family: short-circuit consumers behind forced-parallel stages
+		nlazy := 42
+		if tier == "thorough" {
+			nlazy = 1500
+		}
+		nlazy *= optBoost
+		rl := NewRng(seed + 77)
+		for _, c := range c6LazyCorpus() {
+			id++
+			c.ID = id
+			c.Procs = 4
+			cases = append(cases, c)
+		}
+		for i := 0; i < nlazy; i++ {
+			id++
+			c := rl.c6GenLazy(id, i)
+			c.Procs = procsSet[1+i%3] // a single P never reorders arrivals
+			if i%8 == 0 {
 				repeatAll[id] = true
 			}
 			cases = append(cases, c)
@@ -1631,6 +1657,90 @@ func cmdC06(seed int64, tier, outDir string) {
 		sum.GoViolations = append(sum.GoViolations, GoViolation{CaseID: cid, What: what, Sig: sig, Human: human, Expected: exp, Observed: obs})
 	}
 	for _, c := range cases {
+		if c.Lazy {
+			ref, refOK, consumed, hasErr := c.lazyRef()
+			text := c.Text()
+			mode := "no failing element"
+			switch {
+			case hasErr && !refOK:
+				mode = "failing element inside the demanded prefix (or the consumer itself reports an error)"
+			case hasErr:
+				mode = "failing element behind the decisive one"
+			}
+			sum.Count("lazy_family", c.Term.Kind+": "+mode)
+			sum.Count("lazy_decisive_position", bucket(consumed))
+			if sq := seqOf[c.ID]; sq != nil && sq.NCPU == 1 {
+				if strings.HasPrefix(sq.Err, "generate:") {
+					fatal("c06: generated expression rejected: %s: %s", text, sq.Err)
+				}
+				if !c6Equal(sq.Obs, sq.OK, ref, refOK) {
+					caseID++
+					addViolation(c, map[int]bool{}, "sequential-path", "lazy family: the library's sequential path (NumCPU==1) disagrees with the lazy reference: "+sq.Err,
+						c6ObsString(ref, refOK), c6ObsString(sq.Obs, sq.OK), caseID, map[string]any{"gomaxprocs": "taskset"})
+				}
+				if seqRaces[c.ID] > 0 {
+					caseID++
+					addViolation(c, map[int]bool{}, "race-sequential", "data race reported on the sequential path", "no race", fmt.Sprintf("%d reports", seqRaces[c.ID]), caseID, map[string]any{"gomaxprocs": "taskset"})
+				}
+			} else {
+				sum.Skipped["no-sequential-result"]++
+			}
+			for _, run := range runs {
+				res := run.results[c.ID]
+				if run.procs == 0 || res == nil {
+					continue
+				}
+				caseID++
+				sum.Evaluations++
+				sum.Count("gomaxprocs", fmt.Sprint(run.procs))
+				switched := map[int]bool{}
+				for _, s := range c.Stages {
+					if c6IsPar(s.Kind) && res.Gids[s.ID] >= 2 {
+						switched[s.ID] = true
+					}
+				}
+				if len(switched) > 0 {
+					sum.Count("parallel_switch", "observed")
+					sum.Nontriv(text)
+				} else {
+					sum.Count("parallel_switch", "not taken")
+				}
+				sum.Cases[fmt.Sprint(caseID)] = map[string]any{"expression": text, "n": c.N, "gomaxprocs": run.procs, "switched_stage_ids": sortedIntKeys(switched),
+					"observed": c6ObsString(res.Obs, res.OK), "reference": c6ObsString(ref, refOK), "repro": c, "signature": c6Signature(c, switched, "wrong-value")}
+				extra := map[string]any{"gomaxprocs": run.procs, "switched_stage_ids": sortedIntKeys(switched)}
+				if res.Hang {
+					addViolation(c, switched, "hang", "evaluation did not finish within 90 s", c6ObsString(ref, refOK), "no result", caseID, extra)
+					continue
+				}
+				if res.Crash {
+					addViolation(c, switched, "process-crash", res.Err, c6ObsString(ref, refOK), "process died", caseID, extra)
+					continue
+				}
+				lw.Add(c.coqLazy(caseID, res.NCPU, switched, res.Obs, res.OK))
+				wrong := !c6Equal(res.Obs, res.OK, ref, refOK)
+				if wrong && !res.OK && hasErr && refOK {
+					// pipeline_par_early_stop_eq_seq: the error of a read-ahead element behind the decisive one surfaced
+					sum.Count("lazy_late_error", "surfaced (evaluation fails, the sequential result is a value)")
+					sum.Sample(map[string]any{"lazy_late_error_surfaced": text, "gomaxprocs": run.procs, "sequential_result": c6ObsString(ref, refOK), "error": res.Err})
+					wrong = false
+				} else if hasErr && refOK {
+					sum.Count("lazy_late_error", "invisible")
+				}
+				if wrong {
+					symptom := "wrong-value"
+					if res.OK != refOK {
+						symptom = "error-mismatch"
+					}
+					extra["error"] = res.Err
+					addViolation(c, switched, symptom, "lazy family: result under parallel execution differs from the sequential result", c6ObsString(ref, refOK), c6ObsString(res.Obs, res.OK), caseID, extra)
+				}
+				if n := run.races[c.ID]; n > 0 && !wrong {
+					extra["race_report"] = run.raceTxt[c.ID]
+					addViolation(c, switched, "race-only", fmt.Sprintf("%d data race report(s) from the race detector", n), "no race", fmt.Sprintf("%d reports", n), caseID, extra)
+				}
+			}
+			continue
+		}
 		ref, refOK := c.Ref()
 		text := c.Text()
 		sum.Count("list_size", bucket(int(c.N)))
@@ -1786,7 +1896,8 @@ func cmdC06(seed int64, tier, outDir string) {
 		}
 	}
 	cw.Flush()
-	sum.CaseFiles = cw.files
+	lw.Flush()
+	sum.CaseFiles = append(append([]string{}, cw.files...), lw.files...)
 	// value disagreements first (they name the case beyond doubt), then by size; a race report is attributed by its position
 	// in the worker's stderr, so a goroutine left behind by an earlier case can make it land on a later one
 	rank := func(v GoViolation) int {
